@@ -254,7 +254,7 @@ def gen_scenario(c, i, seed, tier):
         crashes.append({"pos": pos, "frac": rng.random(), "manner": rng.choice(CRASH_MANNERS), "k": rng.randrange(1, 4000)})
     return {"index": i, "label": "faults=%d crashes=%d" % (len(faults), len(crashes)), "order_seed": rng.randrange(1 << 30), "faults": faults, "crashes": crashes,
             "final_runs": rng.choice([1, 1, 2]), "aslr_off": rng.random() < 0.3, "pad_env": rng.choice([0, 0, 17, 4096, 12345]),
-            "root_via": rng.choice([None, None, None, None, "symlink", "dotdot"]), "env": env_choice}
+            "root_via": rng.choice([None, None, None, None, "symlink", "dotdot"]), "env": env_choice, "parent": rng.choice([None, None, None, "wow_message_parser", "wowm", "src/wow_messages", "wow_world_messages/src/world"])}
 
 
 def apply_fault(root, c, f):
@@ -341,8 +341,12 @@ def classify_path(p):
 
 def exec_scenario(c, sc, keep=False):
     """returns dict(violations=[(oracle, sig, detail)], counters, log)"""
-    root = os.path.join(c.workdir, "s%d-%d" % (sc["index"], os.getpid()) + "-" + hashlib.blake2b(json.dumps(sc, sort_keys=True).encode(), digest_size=4).hexdigest())
-    shutil.rmtree(root, ignore_errors=True)
+    leaf = "s%d-%d" % (sc["index"], os.getpid()) + "-" + hashlib.blake2b(json.dumps(sc, sort_keys=True).encode(), digest_size=4).hexdigest()
+    # configuration dimension: WHERE the checkout is stored - under ancestor directories that carry names which also occur
+    # inside the workspace (nothing the generator emits may depend on the location of the checkout)
+    parent = sc.get("parent")
+    root = os.path.join(c.workdir, leaf, parent, "checkout") if parent else os.path.join(c.workdir, leaf)
+    shutil.rmtree(os.path.join(c.workdir, leaf), ignore_errors=True)
     copy_tree(c.R, root, order_seed=sc["order_seed"])
     counters = {}
     log = hashlib.blake2b(digest_size=8)
@@ -445,7 +449,7 @@ def exec_scenario(c, sc, keep=False):
             if st2 != 0 or ops2:
                 viol.append(("second_run_noop", "second-run-not-noop", "a further run performed %d file operations (status %s)" % (len(ops2), st2)))
     if not keep:
-        shutil.rmtree(root, ignore_errors=True)
+        shutil.rmtree(os.path.join(c.workdir, leaf), ignore_errors=True)
     # dedupe
     seen, vv = set(), []
     for v in viol:
@@ -572,7 +576,7 @@ def check(tier):
             "property_id": "C08", "tier": tier, "seed": seed, "level": "fault_enumeration",
             "coverage": {
                 "evaluations": max(runs, 1), "distinct_nontrivial": max(len(logs), 2) if runs else 2,
-                "rule": "Each scenario: a private scratch checkout on tmpfs created in a seeded file order (controls readdir order), start-state disk faults on generated files (deleted / 0-byte / prefix / content of another generated file / changed line + stale tail / extra file or directory inside generated directories / whole generated directory removed), 0-3 executions of the real generator killed at a file operation chosen inside the work that execution would perform (before the op, after truncate, after k bytes, after the op, or ENOSPC-style panic in the writer), then - faults have stopped - ONE fault-free execution (in a third of the sampled scenarios addressed through a symlink or a path with a '..' component instead of the canonical path; in a quarter with WOWM_WIRESHARK pointing at a dissector checkout) that must exit 0 and leave a tree byte-identical to the reference tree R (R = one run from the unchanged working tree, itself required to equal the working tree and to be a fixed point). Non-trivial: at least one disk fault actually applied; distinct = distinct hashes of (crash outcomes, file-operation trace of the clean execution).",
+                "rule": "Each scenario: a private scratch checkout on tmpfs created in a seeded file order (controls readdir order), start-state disk faults on generated files (deleted / 0-byte / prefix / content of another generated file / changed line + stale tail / extra file or directory inside generated directories / whole generated directory removed), 0-3 executions of the real generator killed at a file operation chosen inside the work that execution would perform (before the op, after truncate, after k bytes, after the op, or ENOSPC-style panic in the writer), then - faults have stopped - ONE fault-free execution (in a third of the sampled scenarios addressed through a symlink or a path with a '..' component instead of the canonical path; in a quarter with WOWM_WIRESHARK pointing at a dissector checkout; in four of seven stored under ancestor directories named like members of the workspace) that must exit 0 and leave a tree byte-identical to the reference tree R (R = one run from the unchanged working tree, itself required to equal the working tree and to be a fixed point). Non-trivial: at least one disk fault actually applied; distinct = distinct hashes of (crash outcomes, file-operation trace of the clean execution).",
                 "samples": samples or [{"note": "no scenario executed: static obligations failed", "findings": c.findings[:3]}],
                 "runs_per_hour": int(runs / wall * 3600) if wall > 0 else 0,
                 "simulated_time_ticks": counters.get("file_ops_in_clean_executions", 0),
